@@ -98,6 +98,15 @@ func (vc *VC) MixHeap(valSort Sort, old Term, keep Term) Term {
 	return vc.LambdaHeap("hx", valSort, Ite(keep, Select(old, q), Select(fresh, q)))
 }
 
+func (vc *VC) fnCallsInit(name string) Term {
+	n := "G0!fncalls!" + sanitize(name)
+	if !vc.heapInit[n] {
+		vc.heapInit[n] = true
+		vc.emitf("(declare-const %s Int)\n", n)
+	}
+	return Term{n, SInt}
+}
+
 func (vc *VC) rootPkg() string {
 	if vc.contract != nil {
 		return vc.contract.PkgPath
@@ -238,6 +247,9 @@ func (vc *VC) baseHeap(base string, v Sort) Term {
 				vc.axioms = append(vc.axioms, fmt.Sprintf("(forall ((q!r Ref)) (! (< %s %s) :pattern ((select %s q!r))))", ridOf, vc.entryAlloc.S, name))
 			}
 			if v == SSlice {
+				// slices stored in memory at entry are backed by array allocations of their own
+				vc.axioms = append(vc.axioms, fmt.Sprintf("(forall ((q!r Ref)) (! (=> (not (= (rid (sbase (select %s q!r))) 0)) (< (otype (rid (sbase (select %s q!r)))) 0)) :pattern ((select %s q!r))))", name, name, name))
+				vc.assume("slices held in memory when the function is entered are backed by array allocations of their own (not by part of a struct object)")
 				vc.axioms = append(vc.axioms, fmt.Sprintf("(forall ((q!r Ref)) (! (and (<= 0 (slen (select %s q!r))) (<= (slen (select %s q!r)) (scap (select %s q!r))) (< (scap (select %s q!r)) 4611686018427387904) (=> (= (rid (sbase (select %s q!r))) 0) (= (scap (select %s q!r)) 0))) :pattern ((select %s q!r))))", name, name, name, name, name, name, name))
 			}
 		}
@@ -484,6 +496,39 @@ func (vc *VC) mergeStates(ins []*State) *State {
 		}
 		if ok {
 			out.ghost[kk] = vc.Define("g", sel(func(s *State) Term { return s.ghost[kk] }))
+		} else if strings.HasPrefix(kk, "defer!") {
+			out.ghost[kk] = vc.Define("g", sel(func(s *State) Term {
+				if t, ok := s.ghost[kk]; ok {
+					return t
+				}
+				return False
+			}))
+		} else if strings.HasPrefix(kk, "fnret!") {
+			var srt Sort
+			for _, s := range ins {
+				if t, ok := s.ghost[kk]; ok {
+					srt = t.Sort
+				}
+			}
+			n := "G0!" + sanitize(kk)
+			if !vc.heapInit[n] {
+				vc.heapInit[n] = true
+				vc.emitf("(declare-const %s %s)\n", n, srt)
+			}
+			init := Term{n, srt}
+			out.ghost[kk] = vc.Define("g", sel(func(s *State) Term {
+				if t, ok := s.ghost[kk]; ok {
+					return t
+				}
+				return init
+			}))
+		} else if strings.HasPrefix(kk, "fncalls!") {
+			out.ghost[kk] = vc.Define("g", sel(func(s *State) Term {
+				if t, ok := s.ghost[kk]; ok {
+					return t
+				}
+				return vc.fnCallsInit(kk[len("fncalls!"):])
+			}))
 		} else if strings.HasPrefix(kk, "chrecv!") {
 			out.ghost[kk] = vc.Define("g", sel(func(s *State) Term {
 				if t, ok := s.ghost[kk]; ok {
@@ -528,6 +573,7 @@ func (vc *VC) rangeAssumption(v Term, t types.Type, alloc Term) Term {
 				// struct pointers that flow into the function (parameters, loads, call results) are
 				// assumed to point to whole allocations, not into the middle of another object
 				c = And(c, Eq(Roff(v), IntLit(0)))
+				c = And(c, Implies(Neq(Rid(v), IntLit(0)), Eq(App(SInt, "otype", Rid(v)), IntLit(int64(vc.tt.TID(u.Elem()))))))
 				vc.assume("struct pointers entering a function (parameters, loaded or returned values) point to whole allocations: no partial overlap between objects of different struct types")
 			}
 		}
